@@ -5,6 +5,18 @@ package sched
 // only node nominations and pod bookkeeping differ between them and that no API write lies in between.
 
 import (
+	"fmt"
+
+	corev1 "k8s.io/api/core/v1"
+	"k8s.io/apimachinery/pkg/api/resource"
+	metav1 "k8s.io/apimachinery/pkg/apis/meta/v1"
+	"sigs.k8s.io/controller-runtime/pkg/reconcile"
+
+	"sigs.k8s.io/karpenter/pkg/apis/v1alpha1"
+	"sigs.k8s.io/karpenter/pkg/cloudprovider"
+	"sigs.k8s.io/karpenter/pkg/cloudprovider/overlay"
+	"sigs.k8s.io/karpenter/pkg/controllers/nodeoverlay"
+
 	"verif/harness/trace"
 	"verif/harness/world"
 )
@@ -22,3 +34,74 @@ func frameSnap(sim *Sim, phase, call string) {
 }
 
 var _ = trace.M{}
+
+// ---------------------------------------------------------------- NodeOverlay (Scenario.Overlays)
+//
+// Wired as in the operator: cluster state, informers and provisioner get overlay.Decorate(provider, client, store); the real
+// nodeoverlay controller runs on the UNDECORATED provider.  The snapshot's catalog section digests the provider's own types.
+
+type frameOverlay struct {
+	store *nodeoverlay.InstanceTypeStore
+	ctrl  *nodeoverlay.Controller
+}
+
+func frameProvider(sim *Sim) cloudprovider.CloudProvider {
+	if len(sim.S.Overlays) == 0 {
+		return sim.W.Prov
+	}
+	sim.ovl = &frameOverlay{store: nodeoverlay.NewInstanceTypeStore()}
+	return overlay.Decorate(sim.W.Prov, sim.W.Client, sim.ovl.store)
+}
+
+func frameOverlayReconcile(sim *Sim) {
+	for i := 0; i < 5; i++ {
+		res, _ := sim.ovl.ctrl.Reconcile(world.WithActor(sim.Ctx, "nodeoverlay"), reconcile.Request{})
+		if !res.Requeue { //nolint:staticcheck
+			return
+		}
+	}
+	panic("nodeoverlay controller keeps requeueing")
+}
+
+func frameOverlayInit(sim *Sim) {
+	if sim.ovl == nil {
+		return
+	}
+	sim.ovl.ctrl = nodeoverlay.NewController(sim.W.Clock, sim.W.Client, sim.W.Prov, sim.ovl.store, sim.Cluster)
+	frameOverlayReconcile(sim)
+}
+
+func frameOverlaysAppear(sim *Sim) {
+	if sim.ovl == nil {
+		return
+	}
+	for _, o := range sim.S.Overlays {
+		ov := &v1alpha1.NodeOverlay{ObjectMeta: metav1.ObjectMeta{Name: o.Name}}
+		ov.Spec.Requirements = []v1alpha1.NodeSelectorRequirement{}
+		for _, r := range o.Reqs {
+			ov.Spec.Requirements = append(ov.Spec.Requirements, v1alpha1.NodeSelectorRequirement{Key: Key(r.Key), Operator: corev1.NodeSelectorOperator(r.Op), Values: r.Vals})
+		}
+		if o.Weight > 0 {
+			w := int32(o.Weight)
+			ov.Spec.Weight = &w
+		}
+		if o.Price != "" {
+			p := o.Price
+			ov.Spec.Price = &p
+		}
+		if o.PriceAdjustment != "" {
+			p := o.PriceAdjustment
+			ov.Spec.PriceAdjustment = &p
+		}
+		if len(o.Capacity) > 0 {
+			ov.Spec.Capacity = corev1.ResourceList{}
+			for k, v := range o.Capacity {
+				ov.Spec.Capacity[corev1.ResourceName(k)] = resource.MustParse(v)
+			}
+		}
+		sim.W.EnvCreate(ov)
+	}
+	frameOverlayReconcile(sim)
+}
+
+var _ = fmt.Sprint
